@@ -29,6 +29,7 @@ Verdict(e) ==
            ELSE IF ~(R \subseteq A.may) THEN <<"spurious", R \ A.may, A.may>>
            ELSE IF "expect" \in DOMAIN e /\ e.exact /\ R # {<<e.expect[i].name, e.expect[i].tid>> : i \in DOMAIN e.expect}
              THEN <<"hand-derived", R, A.may>>
+           ELSE IF A.may # A.must THEN <<"gap", {}, {}>>       \* accepted; counted: Must # May (the statement is not "iff" for this event)
            ELSE <<"ok", {}, {}>>
 
 Init == l = 1
@@ -36,6 +37,7 @@ Next == /\ l <= Len(Rec)
         /\ l' = l + 1
         /\ LET v == Verdict(Rec[l]) IN
            IF v[1] = "ok" THEN TRUE
+           ELSE IF v[1] = "gap" THEN PrintT(<<"GAP", l>>)
            ELSE IF v[1] = "outclass" THEN PrintT(<<"OUTCLASS", l, v[2]>>)
            ELSE PrintT(<<"BAD", l, v[1]>>) /\ PrintT(<<"DETAIL", l, v[1], v[2], "may", v[3], "reported", Reported(Rec[l])>>)
 Spec == Init /\ [][Next]_l
